@@ -168,6 +168,16 @@ def make_check(prop, plans_of, rule, nontrivial, level="model_checking", assumpt
                     if len(st_) >= 2:
                         pos = rng.randrange(1, len(st_))
                         mig.append({"id": r_["id"] + "-mig", "steps": st_[:pos] + [{"op": "migrate"}] + st_[pos:]})
+                if prop == "C16":
+                    # a log is RETIRED: the operator drops it from the configuration and restarts on the same database. The witness takes no more
+                    # updates for it, but what it holds is still what it holds: listed, and served byte for byte (only reads follow the restart)
+                    for r_ in rng.sample(runs, min(len(runs), nmig)):
+                        st_ = r_.get("steps") or []
+                        named = sorted({x["log"] for x in st_ if x.get("op") == "update" and x.get("log") in c["Logs"]})
+                        if named:
+                            L = rng.choice(named)
+                            mig.append({"id": r_["id"] + "-retire", "steps": st_ + [{"op": "migrate", "cls": "retire", "log": L}, {"op": "get", "log": L}, {"op": "getlogs"}]
+                                        + [{"op": "get", "log": x} for x in sorted(c["Logs"])]})
                 if mig:
                     passes.append((mig, ["sqlfile"], ["id"], tagname(pl.name) + "mig", pl.name + " + upgrade over a released database"))
             for runs_, stores_, embeds_, tag_, pname_ in passes:
